@@ -19,6 +19,14 @@ ADAPTERS = ('map', 'for_each', 'fold', 'filter', 'filter_map', 'all', 'any', 'tr
 _ctx_cache = {}
 
 
+def gone_closures(P):
+    """closure literals that the view wrote into their (only) caller: their operations are inventoried there"""
+    il = getattr(P, 'inline_log', None)
+    if il is None:
+        return set()
+    return {p for p in getattr(il, 'inlined_fns', ()) if p not in getattr(il, 'kept', ()) and re.search(r'\{closure#\d+\}$', p)}
+
+
 def closure_context(body):
     """for a closure that is the callback of an iterator adapter: (parent body, the closure aggregate, the adapter call,
     whether the adapted iterator is an `enumerate()`), else None.  A panic-capable site inside such a closure is the same
@@ -39,7 +47,8 @@ def closure_context(body):
                 if rv['r'] == 'agg' and 'closure' in rv:
                     idx.setdefault(norm(rv['closure']), []).append((b, st))
         P.__dict__['_closure_homes'] = idx
-    homes = [h for h in idx.get(body.path, []) if h[0] is not body]
+    gone = gone_closures(P)
+    homes = [h for h in idx.get(body.path, []) if h[0] is not body and not (h[0].kind == 'Closure' and h[0].path in gone)]
     if len(homes) == 1:
         pb, st = homes[0]
         user = [cs for cs in pb.calls() if any(q.sem(pb, a).kind == 'agg' and q.sem(pb, a).extra is st['rv'] for a in cs.args[1:])]
@@ -256,13 +265,9 @@ class Site:
 
 def sites(P, crate):
     out = []
-    il = getattr(P, 'inline_log', None)
-    gone_closures = set()
-    if il is not None:
-        # a closure literal that the view wrote into its (only) caller: its operations are inventoried there
-        gone_closures = {p for p in getattr(il, 'inlined_fns', ()) if p not in getattr(il, 'kept', ()) and re.search(r'\{closure#\d+\}$', p)}
+    gone = gone_closures(P)
     for b in P.all_bodies(crate=crate, statics=True):
-        if b.path in gone_closures and b.kind == 'Closure':
+        if b.path in gone and b.kind == 'Closure':
             continue
         b._ensure()
         for i, blk in enumerate(b.blocks):
@@ -306,6 +311,15 @@ def auto_discharge(s):
         a0, a1 = q.sem(b, s.ops[0]), q.sem(b, s.ops[1])
         if a0.kind == 'call' and (a0.cs.callee or '').endswith('Instant::now') and a1.kind == 'call' and not a1.proj and (a1.cs.callee or '').startswith('rodbus::retry::RetryStrategy::after_'):
             return 'now + the retry delay just chosen by the local RetryStrategy (configuration, not peer input)'
+    if s.kind == 'slice-op' and (s.cs.callee or '').endswith('::copy_from_slice') and len(s.ops) == 2:
+        # dst.copy_from_slice(src) with dst = x.get_mut(0..src.len())? : the lengths are equal by construction
+        d_ = q.sem(b, s.ops[0])
+        if d_.kind == 'call' and (d_.cs.callee or '').endswith('::get_mut') and q.has_success(d_.proj) and len(d_.cs.args) == 2:
+            rng = q.sem(b, d_.cs.args[1])
+            if rng.kind == 'agg' and isinstance(rng.extra, dict) and 'Range' in str(rng.extra.get('adt', '')) and len(rng.extra.get('a', [])) == 2 and q.const_val(b, rng.extra['a'][0]) == 0:
+                e_ = q.sem(b, rng.extra['a'][1])
+                if e_.kind == 'call' and (e_.cs.callee or '').endswith('::len') and e_.cs.args and q.same_value(b, e_.cs.args[0], s.ops[1]):
+                    return 'copy_from_slice into get_mut(0..src.len()): source and destination have the same length by construction'
     if s.kind != 'assert':
         return None
     node = ('b', s.block)
